@@ -41,6 +41,14 @@ def generate(rng, tier):
             ast = [['split', pred, [['tap', 1], ['ignore'], ['to_list']]], ['ignore']]
             trace = with_errors(rng, trace)
         cases.append({'ast': ast, 'trace': trace, 'pred': pred, 'ctx': ctx})
+    for j in range({'quick': 12, 'thorough': 200, 'search': 4}[tier]):
+        # predicate values that are != themselves (NaN, the shared math.nan object and fresh ones): by the property
+        # every such item is a run of its own, also as the first item of a key.  Python only (the model compares
+        # canonical serialisations, which are reflexive).
+        pred = ['nanif', rng.choice([['isodd'], ['lt', enc(3)], ['const', enc(True)], ['gt', enc(100)], ['mod', 3]]), j % 2]
+        trace = muxgen.gen_trace(rng, muxgen.INT, nkeys=rng.choice([1, 2, 3]), sorted_=rng.random() < 0.5)
+        cases.append({'ast': [['split', pred, [['tap', 1]] + rng.choice([[['to_list']], [['count', 1]], []])]], 'trace': trace,
+                      'pred': pred, 'ctx': 'top'})
     for _ in range({'quick': 2, 'thorough': 20, 'search': 0}[tier]):
         # scale, strings: thousands of distinct predicate values that are strings built at run time, on interleaved keys
         pred = ['comp', ['floordiv', rng.choice([2, 3])], ['tostr']]
